@@ -118,8 +118,9 @@ impl Interp {
         Some(f())
     }
 
-    fn open_rw(f: u64) -> std::io::Result<File> {
-        OpenOptions::new().read(true).write(true).open(file_path(f))
+    /// mode: "rw" (default) | "r" | "w"
+    fn open_mode(f: u64, mode: &str) -> std::io::Result<File> {
+        OpenOptions::new().read(mode != "w").write(mode != "r").open(file_path(f))
     }
 
     fn fd_of(&self, k: usize) -> i32 {
@@ -174,9 +175,10 @@ impl Interp {
         match name {
             "open" => {
                 let f = c[1].as_u64().unwrap();
-                let file = Self::open_rw(f).expect("open");
+                let mode = c.get(2).and_then(|m| m.as_str()).unwrap_or("rw").to_string();
+                let file = Self::open_mode(f, &mode).expect("open");
                 self.files.push(Some(file));
-                let f2 = self.with_twin(now, || Self::open_rw(f).expect("open twin"));
+                let f2 = self.with_twin(now, || Self::open_mode(f, &mode).expect("open twin"));
                 self.files2.push(f2);
                 json!(self.files.len() - 1)
             }
